@@ -91,7 +91,7 @@ def _candidate(prog, a, depth=0):
 
 def round_agree(rep, prog, rule="ROUND-AGREE"):
     rep.rule(rule, "printer and parser round offsets the same way: DateTimePrinter::print_offset_rounded bumps the minute exactly when "
-                   "|seconds| >= 30 (half away from zero), the parser's tolerance predicate compares with Offset::round(Unit::Minute), "
+                   "|seconds| >= 30 (half away from zero) and carries a minute of 60 into the hour, the parser's tolerance predicate compares with Offset::round(Unit::Minute), "
                    "and OffsetRound's default mode is HalfExpand with increment 1")
     # (1) printer threshold
     f = prog.fns.get("jiff::fmt::temporal::printer::DateTimePrinter::print_offset_rounded")
@@ -111,6 +111,25 @@ def round_agree(rep, prog, rule="ROUND-AGREE"):
             rep.ok(rule, "printer threshold", how="|seconds| >= 30", loc=f.loc())
         else:
             rep.violation(rule, "printer threshold", "print_offset_rounded compares the seconds with %s, expected |seconds| >= 30" % (hit,), f.loc())
+    # (1b) the carry of the rounded minute reaches the hour: 59 minutes 30+ seconds rounds to the next hour, so the printed
+    # hour cannot be the offset's hour component alone - its term has an alternative that adds 1
+    if f is not None:
+        T = Terms(f)
+        ints = [(bi, t) for bi, t in mir.iter_calls(f) if t.get("path", "").endswith("::write_int")]
+        if len(ints) != 2:
+            rep.violation(rule, "printer hour carry", "anchor missing: expected two write_int calls (hours, minutes) in print_offset_rounded, found %d" % len(ints), f.loc())
+        else:
+            hours = T.at_call(ints[0][0], ints[0][1], 2)
+            carries = any(isinstance(x, tuple) and x and ((x[0] == "bin" and x[1] in ("Add", "AddWithOverflow")) or
+                          (x[0] == "call" and x[1].rsplit("::", 1)[-1] in ("saturating_add", "checked_add", "wrapping_add", "add")))
+                          and any(y == ("const", 1) for y in walk(x)) for x in walk(hours))
+            from_hours = any(is_call(x, "::part_hours_ranged") for x in walk(hours))
+            if carries and from_hours:
+                rep.ok(rule, "printer hour carry", how="the printed hour is part_hours or part_hours + 1", loc=f.loc())
+            else:
+                rep.violation(rule, "printer hour carry", "the printed hour is %s: when 59 minutes and 30 or more seconds round up, the minute "
+                              "wraps to 00 but no carry reaches the hour (-06:59:56 prints as -06:00 instead of -07:00, an hour away "
+                              "from the offset, so the text no longer parses back to the instant)" % show(hours, maxd=4)[:160], f.loc())
     # (2) parser predicate
     cl = [g for g in prog.fns.values() if g.crate == "jiff" and g.is_closure and "temporal::parser::ParsedDateTime" in g.path
           and "to_ambiguous_zoned" in g.path]
